@@ -31,27 +31,10 @@ ASSUMPTIONS = [
 GROUP_COORD_APIS = {8, 9, 11, 12, 13, 14, 15, 28, 42, 47}
 TXN_COORD_APIS = {22, 24, 25, 26}
 
-# Defects of /repo found by this check that are not (yet) in known_findings.json.  A failure
-# whose key is listed here is reported as a KNOWN-FINDING line by this module (the shared
-# known_findings.json is not ours to edit); once the coordinator records or fixes them the
-# entry here is inert (known_findings.json takes precedence / the failure no longer occurs).
-PENDING_FINDINGS = {
-    "C12-listoffsets-noleader-zero-broker":
-        "listoffsets.Request.Broker returns the zero Broker (ID 0) with a nil error for a partition whose leader is not among the "
-        "brokers (LeaderID -1 during an election): the Transport sends the ListOffsets request to broker 0 instead of failing with "
-        "ErrNoLeader as produce/fetch do (Theorem C12_route_leader_listoffsets_refuted)",
-    "C12-controller-unknown-zero-broker":
-        "createtopics/deletetopics/... Request.Broker return cluster.Brokers[cluster.Controller] without checking presence: with "
-        "ControllerID -1 (or an id not in the broker list) the request is sent to broker 0 "
-        "(Theorem C12_route_controller_unknown_refuted)",
-    "C12-heartbeat-not-group-message":
-        "heartbeat.Request has no Group() method: Client.Heartbeat is sent on the control connection (bootstrap broker), not to the "
-        "group coordinator (Theorem C12_heartbeat_to_coordinator_refuted)",
-    "C12-findcoordinator-error-ignored":
-        "sendRequest uses FindCoordinatorResponse.NodeID without looking at ErrorCode: on COORDINATOR_NOT_AVAILABLE (node -1) the "
-        "group/transaction request is sent on the control connection to a broker that is not the coordinator "
-        "(Theorem C12_route_coordinator_error_refuted)",
-}
+# Known defect of /repo kept as a finding (entry in the shared known_findings.json): the 14
+# controller-routed request types return cluster.Brokers[cluster.Controller] unchecked, so with
+# no controller in the layout the request goes to broker 0 (C12_route_controller_unknown_refuted).
+KEY_CONTROLLER = "C12-controller-unknown-zero-broker"
 
 
 # ----------------------------------------------------------------------------- parsing
@@ -250,14 +233,19 @@ def pred_lo(a, go, feats):
     if not cluster_wf(c) or len(tps) != 1 or len(tps[0][1]) != 1:
         return []
     st, b = leader_of(c, tps[0][0], tps[0][1][0])
-    if not go.startswith("ok:"):
-        return [(None, "list-offsets Broker() failed: " + go)]
-    gid = Z(go[3:].split("@")[0])
-    if st == "ok":
+    if go.startswith("ok:"):
+        gid = Z(go[3:].split("@")[0])
+        if st != "ok":
+            return [(None, f"list-offsets routed to broker {gid} although the layout designates no leader ({st})")]
         if gid != b:
             return [(None, f"list-offsets routed to broker {gid}, the partition leader is {b}")]
-    elif st == "noleader" and gid >= 0:
-        return [("C12-listoffsets-noleader-zero-broker", f"list-offsets for a partition without known leader routed to broker {gid}")]
+    elif go.startswith("err:"):
+        if st == "ok":
+            return [(None, "list-offsets rejected although the partition has a known leader")]
+        if go.split(":")[1] != st:
+            return [(None, f"list-offsets failed with {go}, expected {st}")]
+    else:
+        return [(None, "list-offsets Broker() panicked on a message produced by Split")]
     return []
 
 
@@ -270,15 +258,13 @@ def pred_ctl(a, go):
         if gid != c["controller"]:
             return [(None, f"{a[0]} routed to broker {gid}, the controller is {c['controller']}")]
     elif gid >= 0:
-        return [("C12-controller-unknown-zero-broker", f"{a[0]}: layout has no controller (id {c['controller']}) yet routed to broker {gid}")]
+        return [(KEY_CONTROLLER, f"{a[0]}: layout has no controller (id {c['controller']}) yet routed to broker {gid}")]
     return []
 
 
 def pred_class(a, go):
     api = Z(a[0])
     base = go.split("+")[0]
-    if api == 12 and base != "group":
-        return [("C12-heartbeat-not-group-message", "heartbeat.Request is not a GroupMessage")]
     if api in GROUP_COORD_APIS and base != "group":
         return [(None, f"API {api} is addressed to the group coordinator but its request type is routed as '{go}'")]
     if api in TXN_COORD_APIS and base != "txn":
@@ -390,31 +376,24 @@ def e2e_expect(boot, md, req, fc):
         key = 0 if kind == "p" else 1
         return ("trace", [(b, key)] if st == "ok" and b >= 0 else []), None
     if kind == "los":
-        want, finding = [], None
+        want = []
         for t, ps in parse_tps(v):
             for p in ps:
                 st, b = leader_of(c, t, p)
                 if st == "ok":
-                    want.append((b, 2))
-                elif st == "noleader":
-                    finding = "C12-listoffsets-noleader-zero-broker"
-                    want.append(("noleader", 2))
-                else:
-                    want.append((boot, 2))   # documented deviation: unknown topic/partition -> control connection
-        return ("multiset", want), finding
+                    want.append((b, 2))      # anything else is an error: nothing on the wire
+        return ("multiset", want), None
     if kind == "ctl":
         api = Z(v)
         if c["controller"] in c["brokers"]:
             return ("trace", [(c["controller"], api)]), None
-        return ("ctl-unknown", api), "C12-controller-unknown-zero-broker"
+        return ("ctl-unknown", api), KEY_CONTROLLER
     if kind in ("g", "t"):
         api, _ = v.split(":")
         api = Z(api)
         e, node = [Z(x) for x in fc.split("/")]
-        if api == 12:
-            return ("heartbeat", api), "C12-heartbeat-not-group-message"
         if e != 0:
-            return ("fc-error", api), "C12-findcoordinator-error-ignored"
+            return ("trace", [(boot, 10)]), None   # the lookup failed: nothing is sent after it
         if node in c["brokers"]:
             return ("trace", [(boot, 10), (node, api)]), None
         return ("trace", [(boot, 10)]), None
@@ -441,34 +420,18 @@ def pred_e2e(a, go):
     exp, finding = e2e_expect(boot, md, req, fc)
     if exp is None:
         return out
+    if req[:2] in ("g=", "t=") and Z(fc.split("/")[0]) != 0 and status != "err":
+        out.append((None, "find-coordinator answered an error code but the round trip did not fail"))
     kind, want = exp
     if kind == "trace":
         if got != want:
             out.append((None, f"journal {got} but the metadata in force designates {want}"))
     elif kind == "multiset":
-        w = sorted((b, k) for b, k in want if b != "noleader")
-        g = sorted(got)
-        nol = sum(1 for b, _ in want if b == "noleader")
-        extra = list(g)
-        for x in w:
-            if x in extra:
-                extra.remove(x)
-            else:
-                out.append((None, f"journal {got} lacks the designated {x}"))
-                return out
-        if len(extra) > nol:
-            out.append((None, f"journal {got} has requests nobody designated"))
-        elif extra:
-            out.append((finding, f"list-offsets for a partition without leader was sent to broker {extra[0][0]}"))
+        if sorted(got) != sorted(want):
+            out.append((None, f"journal {sorted(got)} but the metadata in force designates {sorted(want)}"))
     elif kind == "ctl-unknown":
         if got:
             out.append((finding, f"layout has no controller yet api {want} was sent to broker {got[0][0]}"))
-    elif kind == "heartbeat":
-        if got and got[-1][0] == boot and (boot, 10) not in got:
-            out.append((finding, "heartbeat sent on the control connection without a coordinator lookup"))
-    elif kind == "fc-error":
-        if len(got) > 1:
-            out.append((finding, f"find-coordinator answered an error, the request was still sent to broker {got[-1][0]}"))
     return out
 
 
@@ -579,19 +542,7 @@ def correspondence(ctx):
                 failures.append(dict(layer="property", key=None, what=what,
                                      detail=c["line"][:1500] + " -> " + c["go"][:300],
                                      input=dict(case=c["line"], go=c["go"])))
-    # findings not yet recorded in the shared known_findings.json: reported here
-    recorded = {f["key"] for f in L.known_findings("C12")}
-    pending_lines, kept = [], []
-    for f in failures:
-        k = f.get("key")
-        if k is not None and k not in recorded and k in PENDING_FINDINGS:
-            line = f"KNOWN-FINDING: property=C12 [{k}; pending entry in known_findings.json] {PENDING_FINDINGS[k]} ({f.get('count', 1)} cases this run)"
-            pending_lines.append(line)
-        else:
-            kept.append(f)
-    for l in pending_lines:
-        print(l)
-    failures = kept[:40]
+    failures = failures[:40]
     ev, dn, hist = L.coverage_counts(cases, trivial_feats=("", "small", "equal", "classification"))
     lag_hist = {k: v for k, v in hist.items() if k.startswith("e2e:lag") or k.startswith("e2e:first-view")}
     out = dict(evaluations=ev, distinct_nontrivial=dn, hist=hist,
@@ -610,10 +561,8 @@ def correspondence(ctx):
                samples=[c["line"][:300] + " | " + c["go"][:100] for c in cases[:2] + cases[len(cases)//3:len(cases)//3+2]
                         + cases[len(cases)//2:len(cases)//2+2] + cases[-2:]],
                failures=failures,
-               notes=["documented deviation (not counted as a violation): list-offsets for a topic/partition absent from the layout is "
-                      "sent on the control connection (Broker{ID:-1}, nil) where produce/fetch fail with ErrNoTopic/ErrNoPartition",
-                      "refresh lag after a cluster change (end-to-end, MetadataTTL 30ms): " + json.dumps(lag_hist, sort_keys=True)],
-               extra=dict(known_findings_seen=pending_lines) if pending_lines else {})
+               notes=["refresh lag after a cluster change (end-to-end, MetadataTTL 30ms): " + json.dumps(lag_hist, sort_keys=True)],
+               extra={})
     return out
 
 
